@@ -13,6 +13,7 @@ import impl  # noqa: F401
 ID = "C19"
 THEOREMS = ["aggT_sem", "aggT_no_shortcuts_left", "aggT_frame", "shortcut_fold",
             "sumInts_eq", "maxInts_eq", "minInts_eq", "seqOp1_len", "seqOp1_count"]
+LEANCHECKER_MODULES = ["Fadl.Props.C19"]  # re-checked by leanchecker in the thorough tier
 RULE = (
     "seeded sort-directed queries containing len/Count/Sum/Max/Min in function-call, method, nested "
     "(inside the sequence argument and inside lambdas) and non-call positions, plus calls with 0, 2, 3 "
